@@ -9,7 +9,7 @@ flock 9
   echo "-Q theories Asn1V"
   echo "-Q gen Asn1Gen"
   echo "-arg -w -arg -notation-overridden,-deprecated-hint-without-locality,-deprecated-instance-without-locality"
-  find theories gen -name '*.v' | sort
+  find theories gen -name '*.v' ! -name 'Tmp_goal_*' | sort
 } > _CoqProject.new
 if ! cmp -s _CoqProject.new _CoqProject; then
   mv _CoqProject.new _CoqProject
